@@ -12,6 +12,7 @@ package main
 
 import (
 	"fmt"
+	"os"
 	"time"
 
 	"verif/internal/harness"
@@ -30,6 +31,11 @@ import (
 // assignment.
 func run(b *harness.B) {
 	c := newCtx(b)
+	t0 := time.Now() // diagnostics only (stderr); never read by an oracle
+	phase := func(name string) {
+		fmt.Fprintf(os.Stderr, "phase %-10s %6.1fs\n", name, time.Since(t0).Seconds())
+		t0 = time.Now()
+	}
 
 	// E1
 	e1 := options(1, []int{3})
@@ -41,6 +47,7 @@ func run(b *harness.B) {
 		b.Count("exhaustive_trees", 1)
 		b.Count("exhaustive_trees_E1", 1)
 	}
+	phase("E1")
 	// E2
 	sub := options(1, []int{2})
 	tot := forEachRoot(sub, 2, b.Batch, b.NB, func(n *node) {
@@ -49,6 +56,7 @@ func run(b *harness.B) {
 		b.Count("exhaustive_trees_E2", 1)
 	})
 	b.MaxOf("E2_space_size", tot)
+	phase("E2")
 	if !b.Quick() {
 		tot := forEachRoot(sub, 3, b.Batch, b.NB, func(n *node) {
 			if len(n.kids) < 3 {
@@ -61,22 +69,27 @@ func run(b *harness.B) {
 		b.MaxOf("E3_space_size", tot)
 	}
 
+	phase("E3")
 	// legacy unlock conditions, exhaustive over small key lists / signature sequences
 	c.ucExhaustive(b.Pick(3, 4), b.Pick(4, 5))
 
+	phase("uc")
 	// limits and decode depth (cheap; one batch)
 	if b.Batch == b.NB-1 {
 		c.limits()
 	}
 
+	phase("limits")
 	// random trees to depth 6 and up to the limits
 	c.randomTrees(b.Pick(1500, 60000))
 
+	phase("random")
 	// end to end through consensus
 	for i := 0; i < b.Pick(1, 6); i++ {
 		c.e2e(b.Pick(40, 300), fmt.Sprint(i))
 	}
 
+	phase("e2e")
 	b.Sample(map[string]any{"kind": "batch summary", "batch": b.Batch, "E1_size": len(e1), "E2_inner_options": len(sub)})
 }
 
